@@ -765,3 +765,30 @@ def minimize_df(df: pd.DataFrame, still_fails, max_calls=24) -> pd.DataFrame:
             if calls >= max_calls:
                 break
     return df
+
+
+def replicate(df: pd.DataFrame, k: int, seed: int = 0) -> pd.DataFrame:
+    """k copies of a (closed) population in one table, every copy with fresh, densely packed but
+    *unsorted* p_id / hh_id (pointer columns remapped consistently).  Used for the large-table
+    strata: code paths that depend on the number of rows / groups."""
+    n = len(df)
+    rng = np.random.RandomState(seed)
+    new_p = rng.permutation(k * n)
+    hhs = sorted(set(df["hh_id"].tolist()))
+    new_h = rng.permutation(k * len(hhs))
+    pos = {int(p): i for i, p in enumerate(df["p_id"].tolist())}
+    hpos = {h: i for i, h in enumerate(hhs)}
+    parts = []
+    for c in range(k):
+        d = df.copy()
+        pm = {p: int(new_p[c * n + i]) for p, i in pos.items()}
+        d["p_id"] = [pm[int(p)] for p in df["p_id"]]
+        d["hh_id"] = [int(new_h[c * len(hhs) + hpos[h]]) for h in df["hh_id"]]
+        for col in POINTER_COLS:
+            if col in d.columns:
+                d[col] = [pm[int(v)] if v >= 0 else int(v) for v in df[col]]
+        parts.append(d)
+    out = pd.concat(parts, ignore_index=True)
+    for col in ["p_id", "hh_id", *[c for c in POINTER_COLS if c in out.columns]]:
+        out[col] = out[col].astype("int64")
+    return out
